@@ -3,7 +3,9 @@ From PM Require Import Proofs.MiniStringProofs Proofs.StrDecodeProofs Proofs.FSt
 From Coq Require Import Lia ZifyBool ZifyN.
 Open Scope bool_scope.
 Open Scope N_scope.
+Ltac Zify.zify_post_hook ::= Z.to_euclidean_division_equations.
 
+(* ------------------------------------------------------------------ str: one escaped character decodes to itself *)
 Lemma esc_str_dec long q c tail : is_q q -> c <> q -> code_point c ->
   dec long q DNorm (esc_str c ++ tail) = cons_res c (dec long q DNorm tail).
 Proof.
@@ -17,95 +19,164 @@ Proof.
   - cbn [app]. destruct long; [apply dec_plain_long | apply dec_plain_short]; assumption.
 Qed.
 
-Definition okc (q : N) (c : N) : Prop := c <> q /\ code_point c.
-
-Lemma body_dec_short q cs rest : is_q q -> Forall (okc q) cs ->
-  dec false q DNorm (flat_map esc_str cs ++ q :: rest) = Some (cs, rest).
+(* ------------------------------------------------------------------ bytes: the same for decb *)
+Lemma decb_hex_cons long q k acc n tail : n < 16 ->
+  decb long q (DHex (S (S k)) acc) (hex_digit n :: tail) = decb long q (DHex (S k) (acc * 16 + n)) tail.
+Proof. intros H. cbn [decb]. rewrite (unhex_hex_digit n H). reflexivity. Qed.
+Lemma decb_hex_last long q acc n tail : n < 16 ->
+  decb long q (DHex 1 acc) (hex_digit n :: tail) = cons_res (acc * 16 + n) (decb long q DNorm tail).
+Proof. intros H. cbn [decb]. rewrite (unhex_hex_digit n H). reflexivity. Qed.
+Lemma decb_x2 long q b tail : b < 256 ->
+  decb long q DNorm ([92; 120] ++ hex_fixed 2 b ++ tail) = cons_res b (decb long q DNorm tail).
 Proof.
-  intros Hq H. induction H as [|c cs [Hc Hp] _ IH]; cbn [flat_map app].
-  - cbn [dec]. destruct Hq as [->| ->]; reflexivity.
-  - rewrite <- app_assoc, esc_str_dec by assumption. rewrite IH. reflexivity.
+  intros H. cbn [app hex_fixed]. cbn [decb]. change (92 =? 92) with true. cbv iota.
+  change (simple_escape 120) with (@None N). cbv iota. change (120 =? 120) with true. cbv iota.
+  rewrite (unhex_hex_digit (b / 16 mod 16)) by lia. cbv iota. rewrite (unhex_hex_digit (b mod 16)) by lia. cbv iota. f_equal. lia.
 Qed.
-Lemma body_dec_long q cs rest : is_q q -> Forall (okc q) cs ->
-  dec true q DNorm (flat_map esc_str cs ++ q :: q :: q :: rest) = Some (cs, rest).
+Lemma decb_simple long q e v tail : simple_escape e = Some v ->
+  decb long q DNorm (92 :: e :: tail) = cons_res v (decb long q DNorm tail).
+Proof. intros H. cbn [decb]. change (92 =? 92) with true. cbv iota. rewrite H. reflexivity. Qed.
+Lemma decb_plain long q c tail : c <> q -> c <> 10 -> c <> 92 -> c <> 13 -> c <> 0 -> c < 128 ->
+  decb long q DNorm (c :: tail) = cons_res c (decb long q DNorm tail).
 Proof.
-  intros Hq H. induction H as [|c cs [Hc Hp] _ IH]; cbn [flat_map app].
-  - cbn [dec]. destruct Hq as [->| ->]; reflexivity.
-  - rewrite <- app_assoc, esc_str_dec by assumption. rewrite IH. reflexivity.
+  intros H1 H2 H3 H4 H5 H6. cbn [decb].
+  replace (c =? 92) with false by lia. replace ((c =? 13) || (c =? 0) || (128 <=? c)) with false by lia.
+  replace (c =? q) with false by lia. replace (c =? 10) with false by lia. cbn [andb]. destruct long; reflexivity.
 Qed.
-
-Definition open_v (q : quote) (l cs : text) : Prop := cs <> [] /\ Forall (okc (qc q)) cs /\ l = qtext q ++ flat_map esc_str cs.
-Definition good_v (L cs : text) : Prop := exists q, is_q (qc q) /\ cs <> [] /\ Forall (okc (qc q)) cs /\ L = qtext q ++ flat_map esc_str cs ++ qtext q.
-
-Lemma okc_ne q cs : Forall (okc q) cs -> Forall (fun c => c <> q) cs.
-Proof. intro H. eapply Forall_impl; [|exact H]. intros c [Hc _]. exact Hc. Qed.
-
-Lemma good_v_value L cs rest v : good_v L cs -> lits_value rest v -> lits_value (L ++ rest) (cs ++ v).
+Definition byte_val (b : N) : Prop := b < 256.
+Lemma esc_bytes_dec long q b tail : is_q q -> b <> q -> byte_val b ->
+  decb long q DNorm (esc_bytes b ++ tail) = cons_res b (decb long q DNorm tail).
 Proof.
-  intros (q & Hq & Hne & Hcs & ->) Hrest. unfold qtext. destruct (qlong q).
-  - rewrite <- !app_assoc. cbn [app]. eapply LV_long; [exact Hq | | exact Hrest]. apply body_dec_long; assumption.
-  - rewrite <- !app_assoc. cbn [app]. eapply LV_short; [exact Hq | | | exact Hrest].
-    + eapply (body_head esc_str esc_str_ok); [exact Hq | exact Hne | apply okc_ne; exact Hcs].
-    + apply body_dec_short; assumption.
-Qed.
-
-Lemma joinr_value ls bodies : Forall2 good_v ls bodies -> lits_value (joinr ls) (concat bodies).
-Proof.
-  induction 1 as [|l b ls bs Hl Hls IH]; cbn [joinr concat]; [constructor|].
-  apply good_v_value; [exact Hl|].
-  destruct ls as [|l2 ls']; [exact IH|]. destruct (N.eqb (last l 0) (hd 0 l2)); [apply LV_space|]; exact IH.
+  intros Hq Hbq Hb. unfold byte_val in Hb. unfold esc_bytes.
+  destruct (N.eqb_spec b 92) as [->|H92]; [apply decb_simple; reflexivity|].
+  destruct (N.eqb_spec b 10) as [->|H10]; [apply decb_simple; reflexivity|].
+  destruct (N.eqb_spec b 13) as [->|H13]; [apply decb_simple; reflexivity|].
+  destruct ((b =? 0) || (128 <=? b)) eqn:E.
+  - rewrite <- app_assoc. apply decb_x2. exact Hb.
+  - cbn [app]. apply decb_plain; lia.
 Qed.
 
-Lemma get_quote_full_v c q : get_quote full_quotes c = Some q -> is_q (qc q) /\ c <> qc q.
-Proof.
-  unfold get_quote, full_quotes, differs. cbn [find qlong qc orb].
-  destruct (N.eqb_spec c 34) as [->|H34]; cbn [negb].
-  - cbn. intro H. injection H as <-. split; [left; reflexivity | discriminate].
-  - intro H. injection H as <-. split; [right; reflexivity | exact H34].
-Qed.
+(* ------------------------------------------------------------------ generic: _literals + join preserve the value *)
+Section Value.
+  Variable pre : text.
+  Variable esc : N -> text.
+  Variable D : bool -> N -> dstate -> text -> option (text * text).
+  Variable okc : N -> N -> Prop.           (* okc q c: c may stand in a literal quoted with q *)
+  Variable valid_char : N -> Prop.
+  Hypothesis Hesc : esc_ok esc.
+  Hypothesis Hok : forall q c, c <> q -> valid_char c -> okc q c.
+  Hypothesis Hne : forall q c, okc q c -> c <> q.
+  Hypothesis Hchar : forall long q c tail, is_q q -> okc q c -> D long q DNorm (esc c ++ tail) = cons_res c (D long q DNorm tail).
+  Hypothesis Hclose_s : forall q rest, is_q q -> D false q DNorm (q :: rest) = Some ([], rest).
+  Hypothesis Hclose_l : forall q rest, is_q q -> D true q DNorm (q :: q :: q :: rest) = Some ([], rest).
 
-Lemma lits_val s : forall cq lit cur, Forall code_point s ->
-  (match cq with Some q => is_q (qc q) | None => True end) ->
-  (match lit with Some l => exists q, cq = Some q /\ open_v q l cur | None => cur = [] end) ->
-  exists ls bodies, lits [] esc_str full_quotes cq lit s = Some ls /\ Forall2 good_v ls bodies /\ concat bodies = cur ++ s.
-Proof.
-  induction s as [|c s IH]; intros cq lit cur Hs Hcq Hlit; cbn [lits].
-  - destruct lit as [l|].
-    + destruct Hlit as (q & -> & Hne & Hcs & ->). cbn [flush]. exists [(qtext q ++ flat_map esc_str cur) ++ qtext q], [cur].
-      split; [reflexivity|]. split; [|cbn [concat]; reflexivity].
-      constructor; [|constructor]. exists q. repeat split; try assumption. rewrite <- app_assoc. reflexivity.
-    + subst cur. exists [], []. split; [destruct cq; reflexivity|]. split; [constructor|reflexivity].
-  - inversion Hs as [|c' s' Hc Hs']; subst c' s'.
-    destruct (can_quote cq c) eqn:Ecan.
-    + destruct cq as [q|]; [|discriminate]. cbn [can_quote] in Ecan. apply negb_true_iff, N.eqb_neq in Ecan.
-      destruct (IH (Some q) (Some ((match lit with Some l => l | None => [] ++ qtext q end) ++ esc_str c)) (cur ++ [c]) Hs' Hcq) as (ls & bodies & Hl & Hg & Hcat).
-      { exists q. split; [reflexivity|]. destruct lit as [l|].
-        - destruct Hlit as (q' & Hq' & Hne & Hcs & ->). injection Hq' as <-. split; [destruct cur; discriminate|]. split.
-          + apply Forall_app. split; [exact Hcs|]. constructor; [split; assumption|constructor].
-          + rewrite flat_map_app. cbn [flat_map]. rewrite app_nil_r, <- app_assoc. reflexivity.
-        - subst cur. cbn [app]. split; [discriminate|]. split; [constructor; [split; assumption|constructor]|].
+  Lemma body_dec_short q cs rest : is_q q -> Forall (okc q) cs -> D false q DNorm (flat_map esc cs ++ q :: rest) = Some (cs, rest).
+  Proof.
+    intros Hq H. induction H as [|c cs Hc _ IH]; cbn [flat_map app]; [apply Hclose_s; exact Hq|].
+    rewrite <- app_assoc, Hchar by assumption. rewrite IH. reflexivity.
+  Qed.
+  Lemma body_dec_long q cs rest : is_q q -> Forall (okc q) cs -> D true q DNorm (flat_map esc cs ++ q :: q :: q :: rest) = Some (cs, rest).
+  Proof.
+    intros Hq H. induction H as [|c cs Hc _ IH]; cbn [flat_map app]; [apply Hclose_l; exact Hq|].
+    rewrite <- app_assoc, Hchar by assumption. rewrite IH. reflexivity.
+  Qed.
+
+  Definition open_v (q : quote) (l cs : text) : Prop := cs <> [] /\ Forall (okc (qc q)) cs /\ l = pre ++ qtext q ++ flat_map esc cs.
+  Definition good_v (L cs : text) : Prop :=
+    exists q, is_q (qc q) /\ cs <> [] /\ Forall (okc (qc q)) cs /\ L = pre ++ qtext q ++ flat_map esc cs ++ qtext q.
+
+  Lemma okc_ne q cs : Forall (okc q) cs -> Forall (fun c => c <> q) cs.
+  Proof. intro H. eapply Forall_impl; [|exact H]. intros c Hc. eapply Hne. exact Hc. Qed.
+
+  Lemma good_v_value L cs rest v : good_v L cs -> lits_value_gen pre D rest v -> lits_value_gen pre D (L ++ rest) (cs ++ v).
+  Proof.
+    intros (q & Hq & Hnn & Hcs & ->) Hrest. unfold qtext. destruct (qlong q).
+    - rewrite <- !app_assoc. cbn [app]. eapply LV_long; [exact Hq | | exact Hrest]. apply body_dec_long; assumption.
+    - rewrite <- !app_assoc. cbn [app]. eapply LV_short; [exact Hq | | | exact Hrest].
+      + eapply (body_head esc Hesc); [exact Hq | exact Hnn | apply okc_ne; exact Hcs].
+      + apply body_dec_short; assumption.
+  Qed.
+
+  Lemma joinr_value ls bodies : Forall2 good_v ls bodies -> lits_value_gen pre D (joinr ls) (concat bodies).
+  Proof.
+    induction 1 as [|l b ls bs Hl Hls IH]; cbn [joinr concat]; [constructor|].
+    apply good_v_value; [exact Hl|].
+    destruct ls as [|l2 ls']; [exact IH|]. destruct (N.eqb (last l 0) (hd 0 l2)); [apply LV_space|]; exact IH.
+  Qed.
+
+  Lemma get_quote_full_v c q : get_quote full_quotes c = Some q -> is_q (qc q) /\ c <> qc q.
+  Proof.
+    unfold get_quote, full_quotes, differs. cbn [find qlong qc orb].
+    destruct (N.eqb_spec c 34) as [->|H34]; cbn [negb].
+    - cbn. intro H. injection H as <-. split; [left; reflexivity | discriminate].
+    - intro H. injection H as <-. split; [right; reflexivity | exact H34].
+  Qed.
+
+  Lemma lits_val s : forall cq lit cur, Forall valid_char s ->
+    (match cq with Some q => is_q (qc q) | None => True end) ->
+    (match lit with Some l => exists q, cq = Some q /\ open_v q l cur | None => cur = [] end) ->
+    exists ls bodies, lits pre esc full_quotes cq lit s = Some ls /\ Forall2 good_v ls bodies /\ concat bodies = cur ++ s.
+  Proof.
+    induction s as [|c s IH]; intros cq lit cur Hs Hcq Hlit; cbn [lits].
+    - destruct lit as [l|].
+      + destruct Hlit as (q & -> & Hnn & Hcs & ->). cbn [flush]. exists [(pre ++ qtext q ++ flat_map esc cur) ++ qtext q], [cur].
+        split; [reflexivity|]. split; [|cbn [concat]; reflexivity].
+        constructor; [|constructor]. exists q. repeat split; try assumption. rewrite <- !app_assoc. reflexivity.
+      + subst cur. exists [], []. split; [destruct cq; reflexivity|]. split; [constructor|reflexivity].
+    - inversion Hs as [|c' s' Hc Hs']; subst c' s'.
+      destruct (can_quote cq c) eqn:Ecan.
+      + destruct cq as [q|]; [|discriminate]. cbn [can_quote] in Ecan. apply negb_true_iff, N.eqb_neq in Ecan.
+        destruct (IH (Some q) (Some ((match lit with Some l => l | None => pre ++ qtext q end) ++ esc c)) (cur ++ [c]) Hs' Hcq) as (ls & bodies & Hl & Hg & Hcat).
+        { exists q. split; [reflexivity|]. destruct lit as [l|].
+          - destruct Hlit as (q' & Hq' & Hnn & Hcs & ->). injection Hq' as <-. split; [destruct cur; discriminate|]. split.
+            + apply Forall_app. split; [exact Hcs|]. constructor; [apply Hok; assumption|constructor].
+            + rewrite flat_map_app. cbn [flat_map]. rewrite app_nil_r, <- !app_assoc. reflexivity.
+          - subst cur. cbn [app]. split; [discriminate|]. split; [constructor; [apply Hok; assumption|constructor]|].
+            cbn [flat_map]. rewrite app_nil_r, <- app_assoc. reflexivity. }
+        exists ls, bodies. split; [exact Hl|]. split; [exact Hg|]. rewrite Hcat, <- app_assoc. reflexivity.
+      + destruct (get_quote full_quotes c) as [q|] eqn:Eg; [|exfalso; eapply get_quote_full_total; eauto].
+        destruct (get_quote_full_v c q Eg) as [Hv Hcq'].
+        destruct (IH (Some q) (Some (pre ++ qtext q ++ esc c)) [c] Hs' Hv) as (ls & bodies & Hl & Hg & Hcat).
+        { exists q. split; [reflexivity|]. split; [discriminate|]. split; [constructor; [apply Hok; assumption|constructor]|].
           cbn [flat_map]. rewrite app_nil_r. reflexivity. }
-      exists ls, bodies. split; [exact Hl|]. split; [exact Hg|]. rewrite Hcat, <- app_assoc. reflexivity.
-    + destruct (get_quote full_quotes c) as [q|] eqn:Eg; [|exfalso; eapply get_quote_full_total; eauto].
-      destruct (get_quote_full_v c q Eg) as [Hv Hne].
-      destruct (IH (Some q) (Some ([] ++ qtext q ++ esc_str c)) [c] Hs' Hv) as (ls & bodies & Hl & Hg & Hcat).
-      { exists q. split; [reflexivity|]. cbn [app]. split; [discriminate|]. split; [constructor; [split; assumption|constructor]|].
-        cbn [flat_map]. rewrite app_nil_r. reflexivity. }
-      rewrite Hl. cbn [option_map]. destruct lit as [l|].
-      * destruct Hlit as (q0 & -> & Hne0 & Hcs0 & ->). cbn [flush].
-        exists (((qtext q0 ++ flat_map esc_str cur) ++ qtext q0) :: ls), (cur :: bodies). split; [reflexivity|]. split.
-        -- constructor; [|exact Hg]. exists q0. repeat split; try assumption. rewrite <- app_assoc. reflexivity.
-        -- cbn [concat]. rewrite Hcat. reflexivity.
-      * subst cur. exists ls, bodies. split; [destruct cq; reflexivity|]. split; [exact Hg|]. rewrite Hcat. reflexivity.
-Qed.
+        rewrite Hl. cbn [option_map]. destruct lit as [l|].
+        * destruct Hlit as (q0 & -> & Hne0 & Hcs0 & ->). cbn [flush].
+          exists (((pre ++ qtext q0 ++ flat_map esc cur) ++ qtext q0) :: ls), (cur :: bodies). split; [reflexivity|]. split.
+          -- constructor; [|exact Hg]. exists q0. repeat split; try assumption. rewrite <- !app_assoc. reflexivity.
+          -- cbn [concat]. rewrite Hcat. reflexivity.
+        * subst cur. exists ls, bodies. split; [destruct cq; reflexivity|]. split; [exact Hg|]. rewrite Hcat. reflexivity.
+  Qed.
+
+  Theorem candidate_value start s : In start full_quotes -> Forall valid_char s ->
+    exists txt, candidate pre esc full_quotes start s = Some txt /\ lits_value_gen pre D txt s.
+  Proof.
+    intros Hin Hs. unfold candidate.
+    assert (Hv : is_q (qc start)) by (cbn in Hin; unfold is_q; destruct Hin as [<-|[<-|[<-|[<-|[]]]]]; cbn; auto).
+    destruct (lits_val s (Some start) None [] Hs Hv eq_refl) as (ls & bodies & -> & Hg & Hcat).
+    eexists. split; [reflexivity|]. cbn [app] in Hcat. rewrite <- Hcat. apply joinr_value. exact Hg.
+  Qed.
+End Value.
 
 (* VALUE of the text f_string.Str evaluates and writes: whatever quote the candidate starts with, the literals it consists
    of denote, concatenated, exactly the original string *)
 Theorem str_candidate_value start s : In start full_quotes -> Forall code_point s ->
   exists txt, str_candidate start s = Some txt /\ lits_value txt s.
 Proof.
-  intros Hin Hs. unfold str_candidate, candidate.
-  assert (Hv : is_q (qc start)) by (cbn in Hin; unfold is_q; destruct Hin as [<-|[<-|[<-|[<-|[]]]]]; cbn; auto).
-  destruct (lits_val s (Some start) None [] Hs Hv eq_refl) as (ls & bodies & -> & Hg & Hcat).
-  eexists. split; [reflexivity|]. cbn [app] in Hcat. rewrite <- Hcat. apply joinr_value. exact Hg.
+  apply (candidate_value [] esc_str dec (fun q c => c <> q /\ code_point c) code_point esc_str_ok).
+  - intros q c H1 H2. split; assumption.
+  - intros q c [H _]. exact H.
+  - intros long q c tail Hq [H1 H2]. apply esc_str_dec; assumption.
+  - intros q rest [->| ->]; reflexivity.
+  - intros q rest [->| ->]; reflexivity.
+Qed.
+(* ... and the same for f_string.Bytes: b-prefixed literals whose decoded bytes concatenate to the original bytes *)
+Theorem bytes_candidate_value start s : In start full_quotes -> Forall byte_val s ->
+  exists txt, bytes_candidate start s = Some txt /\ lits_value_bytes txt s.
+Proof.
+  apply (candidate_value [98] esc_bytes decb (fun q c => c <> q /\ byte_val c) byte_val esc_bytes_ok).
+  - intros q c H1 H2. split; assumption.
+  - intros q c [H _]. exact H.
+  - intros long q c tail Hq [H1 H2]. apply esc_bytes_dec; assumption.
+  - intros q rest [->| ->]; reflexivity.
+  - intros q rest [->| ->]; reflexivity.
 Qed.
